@@ -51,3 +51,22 @@ Fixpoint nodup_keys (l : list (N * rkind)) : bool :=
 Theorem C01i_registry_ids_distinct : nodup_keys shipped_reg = true.
 Proof. vm_compute. reflexivity. Qed.
 Print Assumptions C01i_registry_ids_distinct.
+
+From MTV Require Import TL.RoundTrip.
+
+Theorem C01i_pseudo_ok : pseudo_ok shipped = true.
+Proof. vm_compute. reflexivity. Qed.
+Print Assumptions C01i_pseudo_ok.
+
+(* the round trip on today's universe: for every struct type of the tree and every value of it *)
+Theorem C01i_roundtrip_shipped : forall inflate tid fs bs,
+  wt shipped (TPtr tid) (VObj tid fs) = true -> enc shipped (VObj tid fs) = Ok bs ->
+  exists f0, forall f, (f0 <= f)%nat -> decode_named shipped inflate f tid bs = DOk (norm shipped (VObj tid fs)).
+Proof. intros inflate. apply roundtrip_named. exact C01i_pseudo_ok. Qed.
+Print Assumptions C01i_roundtrip_shipped.
+
+Theorem C01i_roundtrip_unknown_shipped : forall inflate tid fs bs,
+  wt shipped (TIface 0) (VObj tid fs) = true -> enc shipped (VObj tid fs) = Ok bs ->
+  exists f0, forall f, (f0 <= f)%nat -> decode_unknown shipped inflate f [] bs = DOk (norm shipped (VObj tid fs)).
+Proof. intros inflate. apply roundtrip_unknown. exact C01i_pseudo_ok. Qed.
+Print Assumptions C01i_roundtrip_unknown_shipped.
